@@ -12,7 +12,7 @@ META = {
         "text": "Kernel-checked: decode (encode v ++ rest) = (norm v, rest) for every resolved schema type and every well-typed value (no size bound besides int32 frames), frame size prefix = bytes that follow, a framed response is consumed exactly, unknown tagged fields are skipped, model encoder = Kafka reference encoder; instantiated at every registered API x version re-extracted from the source. Tied to the code by regenerated schemas and by running WriteRequest/WriteResponse/ReadRequest/ReadResponse (default and unsafe builds) against the model on generated values, both directions.",
         "design_ref": "DESIGN.md §7 C04",
     },
-    "level_note": "Trusted: Lean kernel + propext/Classical.choice/Quot.sound; the go/ast schema extractor; the driver/oracle correspondence (sampled values); Spec/KafkaWire.lean and the golden table Spec/KafkaSchemas.lean are transcriptions from the published Kafka protocol (12 APIs audited, the others follow the tree: snapshot-unaudited); RecordSet payloads are opaque blobs here (C05). The hand-written Conn codec (write.go/sizeof.go) is not yet modelled — partial, see docs/notes/C04.md.",
+    "level_note": "Trusted: Lean kernel + propext/Classical.choice/Quot.sound; the go/ast schema extractor; the driver/oracle correspondence (sampled values); Spec/KafkaWire.lean and the golden table Spec/KafkaSchemas.lean are transcriptions from the published Kafka protocol (24 APIs audited, the others follow the tree: snapshot-unaudited); RecordSet payloads are opaque blobs here (C05). The hand-written Conn codec (write.go/sizeof.go) is not yet modelled — partial, see docs/notes/C04.md.",
 }
 
 MODULE = "KafkaVerif.Props.C04"
